@@ -15,7 +15,7 @@ import (
 )
 
 var Spec = engine.Spec{
-	ID: "C12", Run: Run, QuickBud: 5 * time.Minute, ThorBud: 20 * time.Minute,
+	ID: "C12", Run: Run, MapOrders: true, QuickBud: 5 * time.Minute, ThorBud: 20 * time.Minute,
 	Technique: "explicit enumeration of every schema field path (by reflection) x {Copy of each message type, Union, Intersect}: mutate one side, snapshot the other; plus all call histories of length 2 (thorough 3) over {Union, Intersect, Copy} on shared operands with snapshots of every earlier result re-taken after every later call",
 	Rule:      "case = (derivation, source value, field-path deviation, which side is mutated) or one call history; sources are built with spare slice capacity; distinct state = derivation + value label + path + side",
 	Assume:    []string{"snapshots are order-sensitive field-by-field dumps (gen.Snap); writes beyond a slice's length into shared spare capacity are only observed through later appends, which the histories exercise"},
